@@ -154,7 +154,7 @@ class TSPEnv(RL4COEnvBase):
             self.check_solution_validity(td, actions)
 
         # Gather locations in order of tour and return distance between them (i.e., -reward)
-        locs_ordered = gather_by_index(td["locs"], actions)
+        locs_ordered = gather_by_index(td["locs"], actions, squeeze=False)
         return -get_tour_length(locs_ordered)
 
     @staticmethod
